@@ -581,8 +581,11 @@ impl DcpsDomainParticipant {
                 gap_submessage.writer_id(),
             );
             if let Some(writer_proxy) = dr.transport_reader.matched_writer_lookup(writer_guid) {
-                for seq_num in gap_submessage.gap_start()..gap_submessage.gap_list().base() {
-                    writer_proxy.irrelevant_change_set(seq_num)
+                // Every sequence number in gapStart..gapList.base is irrelevant. irrelevant_change_set
+                // only raises the highest received sequence number, so marking the last one of the range
+                // is the same as marking each of them, without iterating over a range chosen by the sender
+                if gap_submessage.gap_start() < gap_submessage.gap_list().base() {
+                    writer_proxy.irrelevant_change_set(gap_submessage.gap_list().base() - 1)
                 }
 
                 for seq_num in gap_submessage.gap_list().set() {
